@@ -43,6 +43,9 @@ ASSUMPTIONS = [
     'shard offsets do not exceed the shard length and shard_index < num_shards (C09 covers shard itself)',
     'pipelines of one runner or chains of 1-5 named transforms (one runner each, row-wise: map / filter) with an aggregate '
     'at any subset of the stages; aggregate state copied by value',
+    'sliced aggregations: the pipelines of the C02 model (stacked aggregates, five slicer kinds, filter / replace masks) over an un-sharded '
+    'SequenceDataSource of dict batches, num_threads = 0, chains that are the identity or a batch filter; cases whose UNINTERRUPTED run raises are '
+    "C02's subject (outside the C10 oracle)",
 ]
 RULE = ('corpus (witnesses of F1/F12/F16 and of the restore-twice aliasing), then small-exhaustive second-generation '
         'restores (every pair of cut points of sources of <= 7 elements under 9 shard chains, both source kinds), then '
@@ -53,6 +56,11 @@ RULE = ('corpus (witnesses of F1/F12/F16 and of the restore-twice aliasing), the
         'shapes: one restore, second generation, restore-then-checkpoint-immediately, restore twice from one state, '
         'checkpoint-continue-restore, third generation; then random chains with filters at random stages, three aggregate '
         'kinds, random histories; every promised arm is enforced: exit 2 if a run misses one), '
+        'pipelines with SLICED aggregations (round 10; harness/lib_resume_sliced.py): six slicer shapes (single, cross, within, within-cross, fan-out fn, '
+        'slice_mask_fn) x six history shapes x every cut position 0..n+1 over 4-batch streams, every fourth with a second named transform that has its '
+        'own sliced aggregate, every fifth with a batch filter, then 350 random C02 pipelines (1-3 stacked aggregates, 0-3 slicers, filter / replace, both '
+        'worlds) as 1-2 named transforms under random histories; observed: delivered batches, agg_result per output key x slice key after every op, '
+        'agg_state keys; 33 promised arms enforced (each slicer kind restored after >= 1 aggregated batch, ...), '
         'and ~8% rejected configurations (num_shards = 0); non-trivial = at least one restore that follows '
         'a delivered element while elements remain; distinct = distinct canonical case JSON')
 
